@@ -96,12 +96,41 @@ func generateFiles(gen *protogen.Plugin, file *protogen.File) []*protogen.Genera
 	if f.APILevel == gofeaturespb.GoFeatures_API_HYBRID {
 		// Update all APILevel fields to OPAQUE
 		f.APILevel = gofeaturespb.GoFeatures_API_OPAQUE
+		restore := saveAPILevels(f.Messages)
 		for _, msg := range f.Messages {
 			setToOpaque(msg)
 		}
 		generated = append(generated, generateOneFile(gen, file, f, "_protoopaque"))
+		// The messages are shared with the files generated after this one
+		// (a file that publicly imports this one re-exports its declarations
+		// according to their API level): put the levels back, so that the
+		// output does not depend on the order in which files are generated.
+		restore()
 	}
 	return generated
+}
+
+// saveAPILevels records the API level of msgs and of all messages nested in
+// them, and returns a function that restores the recorded levels.
+func saveAPILevels(msgs []*protogen.Message) (restore func()) {
+	type saved struct {
+		msg   *protogen.Message
+		level gofeaturespb.GoFeatures_APILevel
+	}
+	var all []saved
+	var walk func(msgs []*protogen.Message)
+	walk = func(msgs []*protogen.Message) {
+		for _, msg := range msgs {
+			all = append(all, saved{msg, msg.APILevel})
+			walk(msg.Messages)
+		}
+	}
+	walk(msgs)
+	return func() {
+		for _, s := range all {
+			s.msg.APILevel = s.level
+		}
+	}
 }
 
 func generateOneFile(gen *protogen.Plugin, file *protogen.File, f *fileInfo, variant string) *protogen.GeneratedFile {
